@@ -21,7 +21,9 @@ META = {
             'from the tree without wrappers; (reprint) lookup_casstype(T.cass_parameterized_type(full=True)) has the same CQL '
             'name and codec as T; (registry) built-in class names still resolve to the built-in classes afterwards; '
             '(cql) python_to_cqltype(cqltype_to_python(s)) == s modulo blanks for the CQL spelling s (with and without blanks '
-            'after commas); (strip) strip_frozen(s) equals the tree printed without its frozen nodes.',
+            'after commas); (strip) strip_frozen(s) equals the tree printed without its frozen nodes; (redefinition) for every '
+            'ordered pair of 13 field types the descriptor of a user type is parsed after the descriptor of the same type name with '
+            'the other field type (incl. a nested user type that was redefined): the second parse must describe the second definition.',
     'note': 'The expected CQL name follows the driver\'s documented conventions (tuples and UDTs are shown frozen, UDT names '
             'unquoted, vectors as pinned by tests/unit/test_types.py); no name is asserted for trees that contain reversed<>. '
             'The type registries are restored after every tree so that cases do not influence each other.',
@@ -426,6 +428,47 @@ def check_tree(part, reg, t, idx):
         part.sample({'tree': V.cql_name(strip_wrappers(t, ('reversed',))), 'descriptor': V.marshal_class(t, full=False)}, limit=3)
 
 
+def redefinition_pairs():
+    """(t1, t2): the same user type name with the same field names, redefined with other field types - directly,
+    only inside a parameter of the field type, or through a nested user type that was redefined"""
+    I, X = ('int',), ('text',)
+    fields = [I, X, ('list', I), ('list', X), ('set', I), ('map', I, X), ('map', X, I), ('tuple', I), ('tuple', X),
+              G.udt('inner', (('a', I),)), G.udt('inner', (('a', X),)), ('frozen', ('list', I)), ('frozen', ('list', X))]
+    out = []
+    for a in fields:
+        for b in fields:
+            if a != b:
+                out.append((G.udt('outer', (('f', a), ('g', I))), G.udt('outer', (('f', b), ('g', I)))))
+    return out
+
+
+def check_redefinition(part, reg, t1, t2):
+    """descriptor of t2 parsed after the descriptor of t1 (same type name): the second parse must describe t2"""
+    case = {'type': t2, 'after': t1, 'descriptor': V.marshal_class(t2, full=False), 'descriptor_before': V.marshal_class(t1, full=False)}
+    part.count('trees')
+    part.count('redefinitions')
+    alone, after = Part(), Part()
+    try:
+        T = clause_parse(alone, reg, norm_varchar(t2), dict(case))
+        if T is not None:
+            clause_reprint(alone, reg, norm_varchar(t2), T, dict(case))
+    finally:
+        reg.restore()
+    try:
+        clause_parse(Part(), reg, norm_varchar(t1), dict(case))
+        T = clause_parse(after, reg, norm_varchar(t2), dict(case))
+        if T is not None:
+            clause_reprint(after, reg, norm_varchar(t2), T, dict(case))
+    finally:
+        reg.restore()
+    known = set(fp for fp, _, _ in alone.violations)
+    for fp, what, _ in after.violations:
+        if fp not in known:
+            part.violation(fp + '/after-redefinition', 'after %s had been parsed: %s' % (case['descriptor_before'], what), case)
+    part.outcome(('redefinition', bool(after.violations)))
+    part.mark_nontrivial(hash((t1, t2)))
+
+
 CQL_ONLY_NAMES = ("it's", 'a\\b', 'say "hi"', 'a b')
 
 
@@ -453,6 +496,9 @@ def run_chunk(args):
         part.count('trees')
         clause_cql(part, reg, t, {'type': t, 'cql_only': True})
         part.mark_nontrivial(hash(t))
+    if cql_only:
+        for t1, t2 in redefinition_pairs():
+            check_redefinition(part, reg, t1, t2)
     return part
 
 
@@ -483,7 +529,9 @@ def replay(ctx, data):
     logging.disable(logging.CRITICAL)
     part = Part()
     reg = Registries()
-    if data.get('cql_only'):
+    if data.get('after'):
+        check_redefinition(part, reg, tuplify(data['after']), t)
+    elif data.get('cql_only'):
         clause_cql(part, reg, t, {'type': t, 'cql_only': True})
     else:
         check_tree(part, reg, t, 1)
